@@ -102,13 +102,25 @@ def history_case(L, first_ops):
                 return v
             tables1 = (len(S.SymbolicExpression._id_expression_map_), RWXNode._graph.num_nodes())
             alive = [(c.__name__) for (w, c) in census if w() is not None]
-            was_yielded = lambda o: any(y() is o for y in yielded)
-            leaked_ranged = [c.__name__ for (w, c) in census if w() is not None and was_yielded(w())]
-            leaked_other = [c.__name__ for (w, c) in census if w() is not None and not was_yielded(w())]
+            # instances that an evaluated query returned (see the listed finding) and, transitively, the instances their
+            # fields refer to: those are kept alive by the user-level references of a pinned instance, not by krrood
+            pinned = [y() for y in yielded if y() is not None]
+            frontier = list(pinned)
+            while frontier:
+                o = frontier.pop()
+                for val in vars(o).values():
+                    for x in (list(val) if isinstance(val, (list, set, tuple)) else [val]):
+                        if isinstance(x, W.Symbol) and not any(x is p_ for p_ in pinned):
+                            pinned.append(x)
+                            frontier.append(x)
+            was_pinned = lambda o: any(p_ is o for p_ in pinned)
+            leaked_ranged = [c.__name__ for (w, c) in census if w() is not None and was_pinned(w())]
+            leaked_other = [c.__name__ for (w, c) in census if w() is not None and not was_pinned(w())]
+            del pinned, frontier
             ctx.observe([list(map(str, o)) for o in trace], alive)
             ctx.note("nonempty", bool(census))
             v["dropped-instances-are-reclaimed"] = not leaked_other
-            v["dropped-instances-are-reclaimed[an-evaluated-query-returned-them]"] = not leaked_ranged
+            v["dropped-instances-are-reclaimed[an-evaluated-query-returned-them-or-an-instance-that-refers-to-them]"] = not leaked_ranged
             # what a domain-less variable sees afterwards, and what the registry keeps, for the classes nothing leaked of
             clean = [t for t in ("T", "Org", "Human", "Other") if not any(w() is not None and issubclass(c, W.CLASSES[t]) for (w, c) in census)]
             try:
